@@ -60,6 +60,7 @@ def generate(rng, tier) -> dict:
         sc["n"] = rng.randint(1, mx)
         sc["nchans"] = rng.choice([1, 2, 4]) if kind == "block" else 1
         sc["mode"] = rng.choice(["bits", "ramp"])
+        sc["dotted"] = rng.random() < 0.3
         if rng.random() < 0.15 and kind in ("block", "tim", "dat", "spec"):
             sc["faults"].append({"kind": "W3", "op": 0, "call": rng.choice([0, 1]), "arg": rng.randint(0, 12)})
     return sc
@@ -307,6 +308,11 @@ def exec_container(sc, ctx, sim, mk) -> None:
     base = base_header(ctx, nch)
     upd = {"tsamp": sc["tsamp"], "tstart": sc["tstart"], "dm": sc["dm"], "nsamples": n, "nbits": 32}
     vals = filgen.make_samples(sc["vseed"], n * (2 if kind in ("spec", "fft") else 1), nch, 32, sc["mode"])
+    # PRESTO-style names carry the DM, i.e. a dot: "cand_DM12.50"; a DM sweep writes neighbours "cand_DM12.75"
+    stem, sibling = "x", None
+    if sc.get("dotted"):
+        stem, sibling = "cand_DM12.50", ("cand_DM12.75" if not sc["faults"] else None)
+        ctx.probe("dotted-basename-with-sibling")
     raised = None
     fired0 = sum(ctx.faults.values())
     try:
@@ -317,12 +323,18 @@ def exec_container(sc, ctx, sim, mk) -> None:
         elif kind in ("tim", "dat"):
             hdr = base.new_header({**upd, "nchans": 1, "data_type": "time series"})
             ts = TimeSeries(vals[:, 0].copy(), hdr)
-            out = ts.to_tim(os.path.join(ctx.root, "x.tim")) if kind == "tim" else ts.to_dat(os.path.join(ctx.root, "x"))
+            out = ts.to_tim(os.path.join(ctx.root, f"{stem}.tim")) if kind == "tim" else ts.to_dat(os.path.join(ctx.root, stem))
+            if sibling:  # another product of the same kind, written afterwards under a neighbouring name
+                ts2 = TimeSeries((vals[: max(1, n // 2), 0] + 1).copy(), hdr.new_header({"nsamples": max(1, n // 2), "dm": sc["dm"] + 0.25}))
+                (ts2.to_tim(os.path.join(ctx.root, f"{sibling}.tim")) if kind == "tim" else ts2.to_dat(os.path.join(ctx.root, sibling)))
         else:
             hdr = base.new_header({**upd, "nchans": 1, "data_type": "time series"})
             cdata = vals[:, 0].copy().view(np.complex64)
             fsr = FourierSeries(cdata, hdr)
-            out = fsr.to_spec(os.path.join(ctx.root, "x.spec")) if kind == "spec" else fsr.to_fft(os.path.join(ctx.root, "x"))
+            out = fsr.to_spec(os.path.join(ctx.root, f"{stem}.spec")) if kind == "spec" else fsr.to_fft(os.path.join(ctx.root, stem))
+            if sibling:
+                fs2 = FourierSeries((cdata[: max(1, n // 2)] + 1).copy(), hdr.new_header({"dm": sc["dm"] + 0.25}))
+                (fs2.to_spec(os.path.join(ctx.root, f"{sibling}.spec")) if kind == "spec" else fs2.to_fft(os.path.join(ctx.root, sibling)))
     except SimLivelock as e:
         raise mk("livelock", str(e)) from None
     except Exception as e:  # noqa: BLE001
